@@ -160,6 +160,14 @@ class Translator:
                     c if c.isalnum() else "_" for c in k))
             raise Untranslatable(k)
         if isinstance(n, ast.IfExp):
+            if getattr(self, "ifexp_guards", False):
+                # a value defined piecewise under a guard the translator
+                # does not interpret: equal to a reference only if BOTH
+                # branches are
+                g = sp.Symbol("guard_" + "".join(
+                    c if c.isalnum() else "_" for c in norm(n.test, 60)))
+                return sp.Piecewise((self.expr(n.body), sp.Eq(g, 1)),
+                                    (self.expr(n.orelse), True))
             raise Untranslatable("conditional expression " + norm(n))
         if isinstance(n, (ast.Tuple, ast.List)):
             return tuple(self.expr(e) for e in n.elts)
